@@ -163,6 +163,28 @@ impl Invocation {
     }
 }
 
+/// Variables of the ambient environment a user's shell may carry (locale, terminal, colour conventions) and
+/// values for them: no property lets the outcome of a command depend on them.
+pub const AMBIENT_VARS: [&str; 12] = ["LANG", "LC_ALL", "LC_MESSAGES", "LC_CTYPE", "LANGUAGE", "TERM", "NO_COLOR", "CLICOLOR_FORCE", "COLUMNS", "HOME", "TZ", "USER"];
+pub const AMBIENT_VALUES: [&str; 28] = [
+    "", "C", "POSIX", "C.UTF-8", "en_US.UTF-8", "en", "en_GB", "de_DE.UTF-8", "de", "fr_FR@euro", "ja_JP.eucJP", "zh_CN.GB18030", "tr_TR.UTF-8", "x", "\u{e9}",
+    "a\u{e9}", "\u{65e5}\u{672c}\u{8a9e}", "e\u{301}n", "0", "1", "-1", "dumb", "xterm-256color", "/", "/nonexistent", "99999999999999999999", "en_US.UTF-8@\u{1f600}", ".",
+];
+
+/// 1..=3 ambient variables (locale variables preferred) with values from `AMBIENT_VALUES` or a long string.
+pub fn ambient_env(u: &mut crate::gen::U) -> Vec<(String, String)> {
+    let n = 1 + u.below(3);
+    let mut v: Vec<(String, String)> = vec![];
+    for _ in 0..n {
+        let k = if u.ratio(2, 3) { AMBIENT_VARS[u.below(5)] } else { AMBIENT_VARS[u.below(AMBIENT_VARS.len())] };
+        let val = if u.ratio(1, 24) { "l".repeat(1 + u.below(5000)) } else { AMBIENT_VALUES[u.below(AMBIENT_VALUES.len())].to_string() };
+        if !v.iter().any(|(kk, _)| kk == k) {
+            v.push((k.to_string(), val));
+        }
+    }
+    v
+}
+
 pub fn run(exe: &Path, inv: &Invocation, timeout: Duration) -> CliOut {
     let stdin = crate::refimpl::unhex(&inv.stdin_hex).unwrap_or_default();
     let args: Vec<OsString> = inv.args.iter().map(OsString::from).collect();
